@@ -23,4 +23,9 @@ REJECTED = {
     "undefined": ["        LDA NOWHERE\n"],
     "duplicate": ["A       NOP\n", "A       NOP\n"],
     "badoperand": ["        LDA #$12345\n"],
+    # operand texts that are legal for OTHER mnemonics of the corpus (register lists, value lists, strings)
+    "reglist-operand": ["        LDA A,B,X\n"],
+    "list-operand": ["        LDA 1,2,3,4\n"],
+    "string-operand": ["        LDA \"HELLO WORLD\"\n"],
+    "pair-operand": ["        LDA X,Y\n", "        LDB A,B\n"],
 }
